@@ -110,6 +110,17 @@ def r_wrapper_coverage(r, prog):
         raise AnchorMissing('impls of CycleCandidate')
     rets = f.return_blocks()
     variants = prog.adts[types_adt]['variants']
+    # the dispatch itself is reached on every path: no position (optional, tagged, ...) is exempt from the traversal
+    if must_pass(f, 0, rets, [sw['bb']]):
+        r.ok('every path through check_field_type_for_cycles reaches the match on the concrete type')
+    else:
+        r.finding('traversal-skipped-before-dispatch', f.span,
+                  'check_field_type_for_cycles can return before looking at the concrete type: cycles through the exempted positions are not diagnosed')
+    ct = [c for c in f.calls() if c.name() == 'concrete_type' and origin_calls(f, sw['place']) and f.dominates(c.bb, sw['bb'])]
+    if ct and any(t[0] == 'arg' and t[1] == 2 for t in f.origin(ct[0].args[0], wide=True)):
+        r.ok('the match is on the concrete type of the type reference being checked')
+    else:
+        r.finding('dispatch-not-on-checked-type', f.span, 'the match in check_field_type_for_cycles is not on concrete_type() of its type_ref parameter')
     for vi, v in enumerate(variants):
         payload = _payload_adt(v['fields'][0]['ty']) if v['fields'] else None
         tgt = sw['arms'].get(vi, sw['otherwise'])
@@ -137,7 +148,7 @@ def r_wrapper_coverage(r, prog):
                               'the Types::%s arm does not recurse into %s on every path: a cycle routed through that position is not detected' % (v['n'], fld))
         else:
             r.ok('Types::%s is terminal (no TypeRef field, not a CycleCandidate)' % v['n'])
-    r.floor(7, 'Types variants')
+    r.floor(9, 'Types variants')
 
 
 def r_container_coverage(r, prog):
@@ -292,6 +303,16 @@ def r_recursion_guard(r, prog):
             r.ok('dependency_stack push before / pop after the recursion on every path', c.span)
         else:
             r.finding('stack-push-pop-unbalanced', c.span, 'dependency_stack is not pushed before or not popped after the recursive descent on every path')
+    # no other way round the descent: entry leads to the recursion unless one of the two guards fired
+    cut = [(e['bb'], e['equal']) for e in g1 + g2]
+    open_blocks = f.reachable(0, blocked=[c.bb for c in rec], blocked_edges=cut)
+    leaks = [b for b in f.return_blocks() if b in open_blocks]
+    if leaks:
+        r.finding('descent-skipped-for-another-reason', f.span,
+                  'push_to_stack_and_check can return without descending into the candidate although neither guard (candidate == type being checked, '
+                  'candidate already on the dependency stack) fired: cycles behind the skipped candidate are not diagnosed')
+    else:
+        r.ok('the descent is skipped only on the two guard edges')
     # the reporting path pushes and pops as well
     rep = f.calls_to('report_cycle_error')
     for c in rep:
@@ -312,7 +333,7 @@ def r_recursion_guard(r, prog):
         r.ok('report_cycle_error builds Error::InfiniteSizeCycle and pushes it')
     else:
         r.finding('report-builds-no-error', rc.span, 'report_cycle_error does not build and push Error::InfiniteSizeCycle')
-    r.floor(5)
+    r.floor(6)
 
 
 def r_alias_loop(r, prog):
